@@ -184,9 +184,13 @@ func makeComparableFilter(src, varname string) filterFunc {
 
 func makeVarContainsFilter(src, varname string, pat *gogrep.Pattern) filterFunc {
 	return func(params *filterParams) matchFilterResult {
+		root := params.subNode(varname)
+		if isAbsentNode(root) {
+			return filterFailure(src) // Nothing to search in
+		}
 		params.gogrepSubState.CapturePreset = params.match.CaptureList()
 		matched := false
-		gogrep.Walk(params.subNode(varname), func(n ast.Node) bool {
+		gogrep.Walk(root, func(n ast.Node) bool {
 			if matched {
 				return false
 			}
@@ -390,8 +394,13 @@ func makeTypeAssignableToFilter(src, varname string, dstType types.Type) filterF
 func makeLineFilter(src, varname string, op token.Token, rhsVarname string) filterFunc {
 	// TODO(quasilyte): add variadic support.
 	return func(params *filterParams) matchFilterResult {
-		line1 := params.ctx.Fset.Position(params.subNode(varname).Pos()).Line
-		line2 := params.ctx.Fset.Position(params.subNode(rhsVarname).Pos()).Line
+		lhs := params.subNode(varname)
+		rhs := params.subNode(rhsVarname)
+		if isAbsentNode(lhs) || isAbsentNode(rhs) {
+			return filterFailure(src) // No node, no line
+		}
+		line1 := params.ctx.Fset.Position(lhs.Pos()).Line
+		line2 := params.ctx.Fset.Position(rhs.Pos()).Line
 		lhsValue := constant.MakeInt64(int64(line1))
 		rhsValue := constant.MakeInt64(int64(line2))
 		if constant.Compare(lhsValue, op, rhsValue) {
@@ -455,6 +464,9 @@ func makeLineConstFilter(src, varname string, op token.Token, rhsValue constant.
 	// TODO(quasilyte): add variadic support.
 	return func(params *filterParams) matchFilterResult {
 		n := params.subNode(varname)
+		if isAbsentNode(n) {
+			return filterFailure(src) // No node, no line
+		}
 		lhsValue := constant.MakeInt64(int64(params.ctx.Fset.Position(n.Pos()).Line))
 		if constant.Compare(lhsValue, op, rhsValue) {
 			return filterSuccess
